@@ -494,7 +494,7 @@ UNITS += [
 VERIFIED_CALLEES = ("self._check_mode", "change_to_path_dir")
 LEVEL = "other"
 TECHNIQUE = "contract-based deductive verification (VCs from the real AST, z3/cvc5) + bounded run-time contract checking"
-LEVEL_TEXT = "under construction"
+LEVEL_TEXT = "Proved for local str paths and all mode strings (as multisets): Path._check_mode accepts exactly the valid modes; Path.__init__ returns normally exactly when the file system (uninterpreted predicates) satisfies every flag of the mode, raises only PathError otherwise (this refuted the shipped code for 'F' on a missing path; fixed), stores the spelling as given / the resolved absolute / cwd; change_to_path_dir sets cwd and current_path_dir inside the body and restores both on every exit; parse_path runs the nested parse inside change_to_path_dir(file). Bounded: 571 modes x 77 path kinds under an unprivileged uid against an os.stat oracle; nested configs <= 3 deep."
 LEVEL_NOTE = "under construction"
 EXPLANATION = "under construction"
 ASSUMPTIONS = []
